@@ -333,3 +333,192 @@ def gen_seqbias(rng, g, variant):
 GENERATORS = [
     (gen_linear, 4), (gen_embedding, 3), (gen_embbag, 2), (gen_groupnorm, 3), (gen_layernorm, 3), (gen_seqbias, 1),
 ]
+
+
+# --------------------------------------------------------------------------- convolutions (driver C01conv)
+def _pad_lr(p, k, d):
+    if p == "same":
+        t = d * (k - 1)
+        return t // 2, t - t // 2
+    if p == "valid":
+        return 0, 0
+    return p, p
+
+
+def _geometry(rng, nd, allow_modes=True):
+    """random conv geometry that torch accepts; returns dict or None"""
+    sp = [rng.randint(1, 5) for _ in range(nd)]
+    k = [rng.randint(1, 3) for _ in range(nd)]
+    d = [rng.choice([1, 1, 2, 3]) for _ in range(nd)]
+    s = [rng.choice([1, 1, 2, 3]) for _ in range(nd)]
+    r = rng.random()
+    if r < 0.2:
+        pad, s = "same", [1] * nd
+    elif r < 0.3:
+        pad = "valid"
+    else:
+        pad = [rng.choice([0, 0, 1, 2]) for _ in range(nd)]
+    mode = "zeros"
+    if allow_modes and isinstance(pad, list) and rng.random() < 0.25:
+        mode = rng.choice(["reflect", "replicate", "circular"])
+        if mode == "reflect" and any(p >= n for p, n in zip(pad, sp)):
+            mode = "replicate"
+        if mode == "circular" and any(p > n for p, n in zip(pad, sp)):
+            mode = "replicate"
+    out = []
+    for i in range(nd):
+        pl, pr = _pad_lr(pad if isinstance(pad, str) else pad[i], k[i], d[i])
+        lp = sp[i] + pl + pr
+        dk = k[i] + (k[i] - 1) * (d[i] - 1)
+        if dk > lp:
+            return None
+        out.append((lp - dk) // s[i] + 1)
+    return dict(sp=sp, k=k, d=d, s=s, pad=pad, mode=mode, out=out)
+
+
+def _layout2d(rng, x, allowed):
+    """returns a tensor with the same values as x (4-D) in another memory layout"""
+    lay = rng.choice(allowed)
+    if lay == "channels_last":
+        return x.contiguous(memory_format=torch.channels_last), lay
+    if lay == "transposed":
+        return x.transpose(-1, -2).contiguous().transpose(-1, -2), lay
+    if lay == "sliced":
+        big = torch.zeros(*x.shape[:-1], x.shape[-1] * 2, dtype=x.dtype)
+        big[..., ::2] = x
+        return big[..., ::2], lay
+    if lay == "batch-transposed":
+        return x.transpose(0, 1).contiguous().transpose(0, 1), lay
+    return x, "contiguous"
+
+
+def _pad_tokens(pad, nd):
+    return [pad] * nd if isinstance(pad, str) else [str(p) for p in pad]
+
+
+def gen_conv(rng, g, variant):
+    nd = rng.choice([1, 2, 2, 2, 3])
+    geo = None
+    while geo is None:
+        geo = _geometry(rng, nd)
+    N = rng.choice([0, 1, 2, 2, 3])
+    G = rng.choice([1, 1, 2, 3])
+    Cg, Og = rng.randint(1, 2), rng.randint(1, 2)
+    C, O = G * Cg, G * Og
+    wr = rng.random() < 0.9
+    br = rng.choice([None, True, True, False])
+    cls = {1: nn.Conv1d, 2: nn.Conv2d, 3: nn.Conv3d}[nd]
+    layer = cls(C, O, tuple(geo["k"]), stride=tuple(geo["s"]), padding=geo["pad"] if isinstance(geo["pad"], str) else tuple(geo["pad"]),
+                dilation=tuple(geo["d"]), groups=G, bias=br is not None, padding_mode=geo["mode"]).double()
+    layer.weight.requires_grad_(wr)
+    if br is not None:
+        layer.bias.requires_grad_(br)
+    x = rint(g, [N, C] + geo["sp"], -2, 2)
+    b = rint(g, [N, O] + geo["out"], -2, 2)
+    lay = "contiguous"
+    strides = None
+    if nd == 2:
+        allowed = ["contiguous", "contiguous", "batch-transposed", "channels_last", "transposed"]
+        if variant["D19"] == "repaired":
+            allowed += ["sliced"]
+        x, lay = _layout2d(rng, x, allowed)
+        pads = []
+        for i in (1, 0):
+            pads += list(_pad_lr(geo["pad"] if isinstance(geo["pad"], str) else geo["pad"][i], geo["k"][i], geo["d"][i]))
+        if variant["D17"] == "repaired" and geo["mode"] != "zeros":
+            strides = F.pad(F.pad(x, pads, mode=geo["mode"]), [0, 0, 0, 0]).stride() if N else (0, 0, 0, 0)
+        else:
+            strides = F.pad(x, pads).stride()
+    b, lb = view_as(rng, b)
+    pt = " ".join(_pad_tokens(geo["pad"], nd))
+    dims = f"{N} {C} {O} {G} " + " ".join(map(str, geo["sp"] + geo["k"] + geo["s"] + geo["d"]))
+    flags = f"{int(wr)} {'n' if br is None else int(br)}"
+    if nd == 2:
+        line = f"conv2d {variant['D17']} {variant['D19']} {geo['mode']} {dims} {pt} {flags} {' '.join(map(str, strides))} {enc('i', x)} {enc('i', b)}"
+    else:
+        line = f"conv{nd}d {variant['D17']} {geo['mode']} {dims} {pt} {flags} {enc('i', x)} {enc('i', b)}"
+    wshape = (O, Cg) + tuple(geo["k"])
+
+    def run():
+        return sampler_for(layer)(layer, [x], b), layer
+
+    def check(res, blk):
+        ret, layer = res
+        if "K" not in blk:
+            return False
+        w, bb = ret.get(layer.weight), (ret.get(layer.bias) if layer.bias is not None else None)
+        if w is not None and tuple(w.shape) != (blk["K"],) + wshape:
+            return False
+        if bb is not None and tuple(bb.shape) != (blk["K"], O):
+            return False
+        return same("i", w, blk.get("W")) and same("i", bb, blk.get("B"))
+
+    arch = {"kind": "c%d" % nd, "shape": [C] + geo["sp"], "in_layout": {"channels_last": "channels_last", "transposed": "transposed"}.get(lay, "contiguous"),
+            "layers": [{"t": "Conv", "nd": nd, "in": C, "out": O, "k": geo["k"], "s": geo["s"], "p": geo["pad"], "d": geo["d"], "g": G,
+                        "bias": br is not None, "pm": geo["mode"]}]}
+    return dict(driver="C01conv", comp=f"sampler:Conv{nd}d", line=line, run=run, check=check,
+                key=("conv", nd, N, C, O, G, tuple(geo["sp"]), tuple(geo["k"]), tuple(geo["s"]), tuple(geo["d"]), str(geo["pad"]), geo["mode"], wr, br, lay),
+                nontrivial=N >= 1 and wr and math.prod(geo["out"]) >= 1 and (math.prod(geo["k"]) > 1 or C > 1),
+                sample={"layer": "Conv", "nd": nd, "N": N, "groups": G, "layout": lay, "padding_mode": geo["mode"], "arch": arch})
+
+
+def gen_unfold2d(rng, g, variant):
+    from opacus.utils.tensor_utils import unfold2d
+
+    geo = None
+    while geo is None:
+        geo = _geometry(rng, 2, allow_modes=False)
+    N, C = rng.randint(1, 3), rng.randint(1, 3)
+    x = rint(g, [N, C] + geo["sp"], -4, 4)
+    allowed = ["contiguous", "batch-transposed", "channels_last", "transposed"] + (["sliced"] if variant["D19"] == "repaired" else [])
+    x, lay = _layout2d(rng, x, allowed)
+    pads = []
+    for i in (1, 0):
+        pads += list(_pad_lr(geo["pad"] if isinstance(geo["pad"], str) else geo["pad"][i], geo["k"][i], geo["d"][i]))
+    strides = F.pad(x, pads).stride()
+    line = (f"unfold2d {variant['D19']} {N} {C} " + " ".join(map(str, geo["sp"] + geo["k"] + geo["s"] + geo["d"])) + " "
+            + " ".join(_pad_tokens(geo["pad"], 2)) + " " + " ".join(map(str, strides)) + " " + enc("i", x))
+    K, Q = math.prod(geo["k"]), math.prod(geo["out"])
+
+    def run():
+        return unfold2d(x, kernel_size=tuple(geo["k"]), padding=geo["pad"] if isinstance(geo["pad"], str) else tuple(geo["pad"]),
+                        stride=tuple(geo["s"]), dilation=tuple(geo["d"])), None
+
+    def check(res, blk):
+        u = res[0]
+        return tuple(u.shape) == (N, C * K, Q) and same("i", u, blk.get("U"))
+
+    arch = {"kind": "c2", "shape": [C] + geo["sp"], "in_layout": {"channels_last": "channels_last", "transposed": "transposed"}.get(lay, "contiguous"),
+            "layers": [{"t": "Conv", "nd": 2, "in": C, "out": 2, "k": geo["k"], "s": geo["s"], "p": geo["pad"], "d": geo["d"], "g": 1, "bias": True, "pm": "zeros"}]}
+    return dict(driver="C01conv", comp="unfold2d", line=line, run=run, check=check,
+                key=("unfold2d", N, C, tuple(geo["sp"]), tuple(geo["k"]), tuple(geo["s"]), tuple(geo["d"]), str(geo["pad"]), lay),
+                nontrivial=K > 1 or Q > 1, sample={"layer": "Conv", "fn": "unfold2d", "N": N, "layout": lay, "arch": arch})
+
+
+def gen_unfold3d(rng, g, variant):
+    from opacus.utils.tensor_utils import unfold3d
+
+    geo = None
+    while geo is None:
+        geo = _geometry(rng, 3, allow_modes=False)
+    N, C = rng.randint(1, 2), rng.randint(1, 3)
+    x = rint(g, [N, C] + geo["sp"], -4, 4)
+    line = f"unfold3d {N} {C} " + " ".join(map(str, geo["sp"] + geo["k"] + geo["s"] + geo["d"])) + " " + " ".join(_pad_tokens(geo["pad"], 3)) + " " + enc("i", x)
+    K, Q = math.prod(geo["k"]), math.prod(geo["out"])
+
+    def run():
+        return unfold3d(x, kernel_size=tuple(geo["k"]), padding=geo["pad"] if isinstance(geo["pad"], str) else tuple(geo["pad"]),
+                        stride=tuple(geo["s"]), dilation=tuple(geo["d"])), None
+
+    def check(res, blk):
+        u = res[0]
+        return tuple(u.shape) == (N, C * K, Q) and same("i", u, blk.get("U"))
+
+    arch = {"kind": "c3", "shape": [C] + geo["sp"],
+            "layers": [{"t": "Conv", "nd": 3, "in": C, "out": 2, "k": geo["k"], "s": geo["s"], "p": geo["pad"], "d": geo["d"], "g": 1, "bias": True, "pm": "zeros"}]}
+    return dict(driver="C01conv", comp="unfold3d", line=line, run=run, check=check,
+                key=("unfold3d", N, C, tuple(geo["sp"]), tuple(geo["k"]), tuple(geo["s"]), tuple(geo["d"]), str(geo["pad"])),
+                nontrivial=K > 1 or Q > 1, sample={"layer": "Conv", "fn": "unfold3d", "N": N, "arch": arch})
+
+
+GENERATORS += [(gen_conv, 6), (gen_unfold2d, 2), (gen_unfold3d, 1)]
